@@ -859,3 +859,35 @@ pub fn gen_inline_case(rng: &mut Rng, max_lines: usize) -> TextCase {
         hasher: crate::simenv::draw_hasher(rng, true),
     }
 }
+
+
+/// Blocks `[u_i, a_i, a_i, a_i]` against `[a_i, a_i, a_i, u_i]` (some blocks
+/// permuted, some left alone): more than a thousand items that are unique on
+/// both sides, and whether an item is anchored changes the diff.
+pub fn gen_unique_heavy(rng: &mut Rng, blocks: usize) -> (Vec<u32>, Vec<u32>) {
+    let mut old = Vec::new();
+    let mut new = Vec::new();
+    for i in 0..blocks as u32 {
+        let u = 1_000_000 + i;
+        let a = 10 + i % 997;
+        match rng.below(4) {
+            0 => {
+                old.extend_from_slice(&[u, a, a, a]);
+                new.extend_from_slice(&[a, a, a, u]);
+            }
+            1 => {
+                old.extend_from_slice(&[u, a]);
+                new.extend_from_slice(&[a, u]);
+            }
+            2 => {
+                old.extend_from_slice(&[u, a, a]);
+                new.extend_from_slice(&[u, a, a]);
+            }
+            _ => {
+                old.extend_from_slice(&[a, u, a]);
+                new.extend_from_slice(&[u]);
+            }
+        }
+    }
+    (old, new)
+}
